@@ -209,3 +209,14 @@ def clause_deactivate_counts(r, mir):
             ok = f.dominates(sb, zb)
     if not ok:
         r.violate("deactivate|count-before-zero", "do_for_each_active_and_deactivate zeroes the handler's user_count before subtracting it from the vector's total: the total never decreases, has_active() stays true after the first match, and every later start tag (and what follows each end tag) is lexed and buffered in full although no handler wants it", f.loc())
+
+
+def clause_finish_order(r, mir):
+    """DispatcherDelegate::finish: all remaining input is flushed before the document-end handlers run (their appended
+    content comes after the last input byte), and the zero-length finalizing chunk only after they succeeded"""
+    dfin = mir.fn("DispatcherDelegate::finish")
+    fl = [bi for bi, t in dfin.calls(r"DispatcherDelegate::flush_remaining_input$")]
+    he = [bi for bi, t in dfin.calls(r"handle_end$")]
+    r.inst("finish|flush-before-end-handlers", sample={"flushes": len(fl), "handle_end": len(he)})
+    if len(fl) != 1 or not he or not all(dfin.dominates(fl[0], h) for h in he):
+        r.violate("finish|flush-before-end-handlers", "DispatcherDelegate::finish runs the document-end handlers before (or without) flushing the remaining input: content appended at document end lands in front of the bytes still pending at end(), and a failing end handler loses them", dfin.loc())
